@@ -136,6 +136,16 @@ class C01(Prop):
     id = "C01"
 
     def gen(self, ctx):
+        # empty lines ahead of the request line (a server may skip them, RFC 7230 section 3.5; this parser takes the
+        # first one for an empty request line): one, two, three of them, under every cut of the first bytes
+        for k in (1, 2, 3):
+            for rest in (b"GET / HTTP/1.1\r\nHost: a\r\n\r\n", b"POST /p HTTP/1.1\r\nContent-Length: 3\r\n\r\nabc"):
+                s = b"\r\n" * k + rest
+                g = ("seg", s, ("d", "d", "d"))
+                ctx.add("req", ["d", "d", "d", dels([s])], group=g, stream=s, parts=1)
+                for i in range(1, 2 * k + 4):
+                    ctx.add("req", ["d", "d", "d", dels([s[:i], s[i:]])], group=g, stream=s, parts=2)
+                ctx.add("req", ["d", "d", "d", dels([s[i:i + 1] for i in range(len(s))])], group=g, stream=s, parts=len(s))
         for s, meta in req_streams(ctx, ctx.n(150, 1500)):
             for trip in G.limit_triples(ctx.rng, meta, ctx.n(2, 4))[: ctx.n(3, 6)]:
                 g = ("seg", s, trip)
@@ -220,6 +230,14 @@ class C02(Prop):
                 for i in range(1, len(s)):
                     parts = G.cut_at(s, [i])
                     ctx.add("resp", [dels(parts)], group=("seg", s), stream=s, parts=parts)
+        # a chunked body whose decoded size reaches 64 KiB (one 0x10000-byte chunk with an extension, a small
+        # chunk, a trailer field), cut before, at and after the end of the big chunk's data
+        big = bytes(ctx.rng.choice(b"abcdefgh\r\n") for _ in range(0x10000))
+        s = G.STATUS_LINES[0] + b"\r\nTransfer-Encoding: chunked\r\n\r\n10000;big=1\r\n" + big + b"\r\n4\r\nWXYZ\r\n0\r\nX-T: v\r\n\r\nNEXT"
+        at = s.find(big) + len(big)
+        for cuts in ([], [at - 70000], [at - 1], [at], [at + 1], [at + 2], [at + 5], [at + 11], [len(s) - 6], [at - 30000, at + 3]):
+            parts = G.cut_at(s, [c for c in cuts if 0 < c < len(s)])
+            ctx.add("resp", [dels(parts)], group=("seg", s), stream=s, parts=parts)
         # header lines that begin like a status line or a request line, every single cut: no stage may
         # take them for the start of a message
         for hname in (b"HTTP/Upstream-Version", b"HTTP/1.1", b"GET"):
@@ -281,6 +299,12 @@ class C03(Prop):
                 if ctx.rng.random() < 0.3:
                     for parts in G.schedules(ctx.rng, s, 1)[1:]:
                         ctx.add("req", list(trip) + [dels(parts)], stream=s, whole=cid)
+        # declared lengths at the numeric extremes: rejected for size under a limit, waiting for the body without
+        for n in (2 ** 64 - 1, 2 ** 64 - 11, 2 ** 64 - 60, 2 ** 63, 2 ** 63 - 1, 2 ** 32, 10 ** 7 + 1):
+            s = b"POST / HTTP/1.1\r\nHost: a\r\nContent-Length: %d\r\n\r\nabc" % n
+            for trip in (("d", "d", "d"), ("-", "-", "-"), ("d", "d", "1000")):
+                ctx.add("req", list(trip) + [dels([s])], stream=s)
+                ctx.add("req", list(trip) + [dels([s[:30], s[30:]])], stream=s)
 
     def relations(self, ctx, impl):
         # a strict prefix of an accepted request is never rejected (default limits: prefix within limits)
@@ -515,6 +539,17 @@ class C06(Prop):
         for hl in ("0", "1", "2", "3", "10", "d", "-"):
             for hs in ([], [("A", "b")], [("Name", "some value that is long")], [("A", "b c d e f g h i j k")]):
                 ctx.add("genreq", ["d", hl, "d", hx(b"GET"), hx(b"/"), hdrs_spec(hs), hx(b"")], gen_hl=hl, nhdrs=len(hs))
+        # start lines that are rejected and long, with a multi-byte character sliding across the offsets where an
+        # error message might be cut (255..257, 511..513, 1023..1025): building the error must not slice inside it
+        for w in (b"\xc3\xa9", b"\xe2\x82\xac", b"\xf0\x9f\x98\x80"):
+            for edge in (256, 512, 1024):
+                for off in range(edge - 5, edge + 2):
+                    for tail in (b" HTTP/1.0", b"", b" x y z"):
+                        line = b"GET /" + b"a" * (off - 5) + w + b"b" * 20 + tail
+                        ctx.add("req", ["-", "d", "d", dels([line + b"\r\n\r\n"])])
+                    for head in (b"HTTP/1.0 200 ", b"HTTP/1.1 20x ", b"HTTP/1.1 "):
+                        line = head + b"r" * (off - len(head)) + w + b"s" * 20
+                        ctx.add("resp", [dels([line + b"\r\n\r\n"])])
         # generate on values whose Content-Length says more (or less, or nonsense) than the body holds: a partly
         # received message, a HEAD-style head, an enormous declared length
         for cl in ("0", "1", "5", "10", "1234", "18446744073709551615", "18446744073709551616", "abc", "-1", "5, 5", ""):
@@ -564,8 +599,11 @@ class C07(Prop):
             body = bytes(rng.randrange(256) for _ in range(supplied))
             mm = rng.choice(["d", "-", str(declared + 100), str(rng.randrange(0, 10 ** 6))])
             k = rng.random()
+            extra = rng.choice([b"", b"", b"Expect: 100-continue\r\n", b"expect: 100-Continue\r\n", b"Connection: keep-alive\r\n",
+                                b"Content-Type: application/octet-stream\r\n", b"Range: bytes=0-\r\n", b"Upgrade: h2c\r\n",
+                                b"Transfer-Encoding: gzip\r\n", b"Content-Encoding: gzip\r\n", b"Trailer: X\r\n"])
             if k < 0.4:
-                s = b"POST /x HTTP/1.1\r\nHost: a\r\nContent-Length: %d\r\n\r\n" % declared + body
+                s = b"POST /x HTTP/1.1\r\nHost: a\r\n" + extra + b"Content-Length: %d\r\n\r\n" % declared + body
                 parts = rng.choice(G.schedules(rng, s, 2))
                 ctx.add("req", ["d", "d", mm, dels(parts)], declared=declared, supplied=supplied, presented=len(s), mm=mm)
             elif k < 0.7:
@@ -576,6 +614,17 @@ class C07(Prop):
                 s = CHUNK_PREFIX + b"2\r\nab\r\n%x\r\n" % declared + body
                 parts = rng.choice(G.schedules(rng, s, 2))
                 ctx.add("resp", [dels(parts)], declared=declared, supplied=supplied, presented=len(s))
+        # a large declared length of which 96 KiB and more arrive in 16 KiB deliveries: growth stays proportional to
+        # what has been received, also once the buffer is large (declared Content-Length, and a chunk of that size
+        # after an honest 64 KiB chunk)
+        piece = b"z" * 16384
+        for declared in (2 ** 28, 2 ** 31):
+            head = b"POST /x HTTP/1.1\r\nContent-Length: %d\r\n\r\n" % declared
+            ctx.add("req", ["d", "d", "-", dels([head] + [piece] * 7)], declared=declared, supplied=7 * 16384, presented=len(head) + 7 * 16384, mm="-")
+            head = b"HTTP/1.1 200 OK\r\nContent-Length: %d\r\n\r\n" % declared
+            ctx.add("resp", [dels([head] + [piece] * 7)], declared=declared, supplied=7 * 16384, presented=len(head) + 7 * 16384)
+            head = b"HTTP/1.1 200 OK\r\nTransfer-Encoding: chunked\r\n\r\n10000\r\n" + b"y" * 65536 + b"\r\n%x\r\n" % declared
+            ctx.add("resp", [dels([head] + [piece] * 3)], declared=declared, supplied=65536 + 3 * 16384, presented=len(head) + 3 * 16384)
         # both framing headers, either order, large declared length
         for declared in (0, 5, 10 ** 6, 2 ** 30, 2 ** 31, 2 ** 40, 2 ** 62, 2 ** 63 - 1, 2 ** 63, 2 ** 64 - 1):
             for hs in (b"Content-Length: %d\r\nTransfer-Encoding: chunked\r\n" % declared,
@@ -645,6 +694,23 @@ class C08(Prop):
                 g = ("none", s, tuple(base), k)
                 ctx.add("req", a + [dels([s])], group=g, stream=s, trip=tuple(a), parts=[s])
                 ctx.add("req", b + [dels([s])], group=g, stream=s, trip=tuple(b), parts=[s])
+        # a Transfer-Encoding field beside the declared length (either order, any spelling): the declared body still
+        # counts against the maximum
+        for te in (b"Transfer-Encoding: chunked\r\n", b"transfer-encoding: gzip\r\n", b"TRANSFER-ENCODING: identity\r\n"):
+            for n in (5, 1000, 10 ** 7, 2 * 10 ** 7, 2 ** 64 - 1):
+                for order in (0, 1):
+                    cl = b"Content-Length: %d\r\n" % n
+                    s = b"POST / HTTP/1.1\r\n" + (te + cl if order else cl + te) + b"\r\nhello"
+                    for mm in ("d", "-", "100", str(len(s) - 5 + n - 1), str(len(s) - 5 + n)):
+                        if int(mm) < 2 ** 64 if mm.isdigit() else True:
+                            ctx.add("req", ["d", "d", mm, dels([s])], stream=s, trip=("d", "d", mm), parts=[s])
+        # no request-line limit: a request line of 65535 .. 65537 and 200000 bytes is a request line like any other
+        for L in (65535, 65536, 65537, 200000):
+            line = b"GET /" + b"a" * (L - 14) + b" HTTP/1.1"
+            s = line + b"\r\nHost: a\r\n\r\n"
+            for trip in (("-", "d", "d"), ("-", "-", "-"), ("100000", "d", "d"), ("-", "d", str(len(s))), ("-", "d", str(len(s) - 1))):
+                for parts in ([s], [s[:40000], s[40000:]], [s[:L], s[L:]]):
+                    ctx.add("req", list(trip) + [dels(parts)], stream=s, trip=trip, parts=parts)
         # enormous declared lengths against each maximum
         for n in EXTREMES:
             for mm in ("d", "100", "18446744073709551615", "18446744073709551614") + tuple(str(x) for x in (max(0, n + 39), n + 40, n + 41) if x < 2 ** 64):
@@ -902,6 +968,12 @@ class C10(Prop):
             meth, target, hs, body = wf_request_value(rng)
             cut = rng.choice(["-", "-", "cr", str(rng.randrange(0, 400))])
             ctx.add("genreq", ["d", "d", "d", hx(meth), hx(target), hdrs_spec(hs), hx(body), cut], target=target, wf=True)
+        # well-formed values whose request line is 998 .. 1000 bytes long (the default limit), parsed back whole and cut
+        for L in (998, 999, 1000):
+            meth = rng.choice([b"GET", b"POST", b"OPTIONS"])
+            target = b"/" + b"a" * (L - len(meth) - 11)
+            for cut in ("-", "cr", str(L), str(L + 1), str(L - 1), str(rng.randrange(1, L))):
+                ctx.add("genreq", ["d", "d", "d", hx(meth), hx(target), hdrs_spec([(b"Host", b"a")]), hx(b""), cut], target=target, wf=True)
         # a value whose generated size is exactly the maximum message size (or one below it), parsed back in two
         # deliveries cut at the end of the headers, inside the body, before its last byte
         for _ in range(ctx.n(60, 600)):
@@ -1145,7 +1217,8 @@ def add_decode_case(ctx, damaged=False, stack_only=False):
         hs.append((rng.choice(["X-A", "Content-Type", "Content-Length", "content-length", "Host", "Transfer-Encoding", "transfer-encoding", "Trailer",
                                "Content-MD5", "Digest", "ETag", "Content-Range", "Vary", "Content-Location", "content-md5", "Set-Cookie",
                                "Content-Encoding-X", "X-Content-Encoding", "Accept-Encoding", "Last-Modified", "Content-Language"]),
-                   rng.choice(["1", "text/plain", "zz", "foobar", "gzip", "\"abc\"", "W/\"x\"", "Q2hlY2sgSW50ZWdyaXR5IQ==", "bytes 0-4/10", "Accept-Encoding"])))
+                   rng.choice(["1", "text/plain", "zz", "foobar", "gzip", "application/gzip", "application/x-gzip", "Application/GZIP; x=1",
+                               "application/x-gunzip", "application/zlib", "application/octet-stream", "\"abc\"", "W/\"x\"", "Q2hlY2sgSW50ZWdyaXR5IQ==", "bytes 0-4/10", "Accept-Encoding"])))
     # spread tokens over one or two Content-Encoding headers
     if len(toks) > 1 and rng.random() < 0.3:
         k = rng.randint(1, len(toks) - 1)
@@ -1232,6 +1305,17 @@ class C13(Prop):
                     yield [cid], f"stack {m['stack']} not inverted{' (after an earlier failed decode on the same thread)' if m.get('seq') else ''}: {last[:80]}"
 
 
+def big_ratio_cases(ctx, **meta):
+    """bodies that inflate to 65536 / 65537 / 300000 bytes from a few hundred: decoded whole, headers truthful"""
+    for size in (65536, 65537, 300000):
+        for fill in (b"\x00", b" "):
+            plain = fill * size
+            for fmt, tok in (("gzip", "gzip"), ("zlib", "deflate"), ("raw", "Deflate")):
+                data = G.CODERS[fmt](ctx.rng, plain)
+                for hs in ([("Content-Encoding", tok)], [("Content-Type", "text/plain"), ("Content-Encoding", "foobar, " + tok)]):
+                    yield hs, data, plain, fmt
+
+
 class C14(Prop):
     id = "C14"
     spec_type = True
@@ -1250,6 +1334,18 @@ class C14(Prop):
                 hs = [("Date", "x"), ("Content-Encoding", enc)]
                 ctx.add("dec", [hdrs_spec(hs), hx(data)], hs=hs, plain=None)
         ctx.add("dec", [hdrs_spec([("A", "1")]), hx(b"xyz")], hs=[("A", "1")], plain=None)
+        for hs, data, plain, fmt in big_ratio_cases(ctx):
+            ctx.add("dec", [hdrs_spec(hs), hx(data)], hs=hs, plain=plain)
+        # a Content-Type that names a coding beside the Content-Encoding (a stored .gz labelled twice): every listed
+        # coding is undone all the same, and the media type stays as it is
+        for ct in ("application/gzip", "application/x-gzip", "Application/GZIP; x=1", "application/x-gunzip", "application/zlib", "application/deflate"):
+            for stack in (["gzip"], ["gzip", "zlib"], ["gzip", "gzip"], ["zlib"], ["raw", "gzip"]):
+                plain = G.gen_plain(rng)
+                data = plain
+                for c in stack:
+                    data = G.CODERS[c](rng, data)
+                hs = [("Content-Type", ct), ("Content-Encoding", ", ".join(G.TOKEN_OF[c] for c in stack))]
+                ctx.add("dec", [hdrs_spec(hs), hx(data)], hs=hs, plain=plain)
 
     def relations(self, ctx, impl):
         for cid, m in ctx.meta.items():
@@ -1320,6 +1416,27 @@ class C15(Prop):
             ctx.add("dec", [hdrs_spec(hs), hx(d2)], plain=content, dmg="integrity", fmt="zlib")
         for cut in (16, 17, 100, len(poly) // 2, len(poly) - 9, len(poly) - 5, len(poly) - 1):
             ctx.add("dec", [hdrs_spec(hs), hx(poly[:cut])], plain=content, dmg="trunc", fmt="zlib")
+        # a Content-Type that names the coding beside the Content-Encoding (a stored .gz served with both labels):
+        # the listed coding is still undone, so damage is still refused
+        for ct in ("application/gzip", "application/x-gzip", "APPLICATION/GZIP; q=1", "application/x-gunzip", "application/zlib", "application/octet-stream"):
+            plain = G.gen_plain(rng) or b"x"
+            for fmt, tok in (("gzip", "gzip"), ("gzip", "GZip"), ("zlib", "deflate")):
+                data = G.CODERS[fmt](rng, plain)
+                hs = [("Content-Type", ct), ("Content-Encoding", tok)]
+                ctx.add("dec", [hdrs_spec(hs), hx(data)], plain=plain, dmg=None, fmt=fmt)
+                for cut in sorted({c for c in (0, 1, 2, 9, len(data) // 2, len(data) - 1) if c < len(data)}):
+                    ctx.add("dec", [hdrs_spec(hs), hx(data[:cut])], plain=plain, dmg="trunc", fmt=fmt)
+                for i in range(len(data) - 4, len(data)):
+                    ctx.add("dec", [hdrs_spec(hs), hx(data[:i] + bytes([data[i] ^ 0x55]) + data[i + 1:])], plain=plain, dmg="integrity", fmt=fmt)
+        # gzip members that are one final stored block (what an encoder emits for incompressible data or at level 0):
+        # CRC-32 and ISIZE are checked there too
+        for plain in (bytes(rng.randrange(256) for _ in range(rng.choice([1, 50, 3000]))), b"level zero text " * 20):
+            data = G.gz(plain, 0)
+            hs = [("Content-Encoding", "gzip")]
+            ctx.add("dec", [hdrs_spec(hs), hx(data)], plain=plain, dmg=None, fmt="gzip")
+            for i in list(range(len(data) - 8, len(data))) + [10 + 5 + len(plain) // 2]:
+                ctx.add("dec", [hdrs_spec(hs), hx(data[:i] + bytes([data[i] ^ 0x21]) + data[i + 1:])], plain=plain,
+                        dmg="integrity" if i >= len(data) - 8 else "flip", fmt="gzip", data=data[:i] + bytes([data[i] ^ 0x21]) + data[i + 1:])
         # the same headers (entity tag included) and the same coded length twice on one thread: first intact,
         # then damaged -- nothing remembered from the first call may stand in for decoding the second body
         for _ in range(ctx.n(40, 300)):
@@ -1405,7 +1522,8 @@ def _c15_known(self, ctx, cid, msg):
 
 C15.known = _c15_known
 
-CT_VALUES = ["text/plain", "text/html; charset=utf-8", "TEXT/PLAIN; CHARSET=UTF-8", "Text/x;Charset=Utf-8", "text/plain;charset=iso-8859-1",
+CT_VALUES = ["text/plain; charset=utf-8; format=flowed", "text/plain; charset=utf-8;", "text/plain; a=b; charset=UTF-8; c=d", "text/html;charset=bogus;x=y",
+             "text/plain", "text/html; charset=utf-8", "TEXT/PLAIN; CHARSET=UTF-8", "Text/x;Charset=Utf-8", "text/plain;charset=iso-8859-1",
              "text/plain; charset=\"utf-8\"", "text/plain; x=y; charset=utf-8", "text/plain; charset=utf-8; charset=latin1",
              "text/plain;  charset = utf-8", "text/plain; charset=", "text/plain; charset", "text/plain;;charset=utf-8",
              "application/json", "application/json; charset=utf-8", "text", "text/", "/plain", "", ";", "text;charset=utf-8",
@@ -1454,6 +1572,11 @@ def add_text_case(ctx):
     if rng.random() < 0.3:
         hs.insert(0, ("X", "y"))
     body = gen_text_body(rng)
+    if rng.random() < 0.2:
+        # headers that text decoding has no business with: a (stale) Content-Length, codings, a range
+        hs.insert(rng.randint(0, len(hs)), rng.choice([("Content-Length", str(rng.randint(0, max(0, len(body) - 1)))), ("content-length", "1"),
+                                                       ("Content-Length", str(len(body) + 5)), ("Content-Encoding", "gzip"),
+                                                       ("Transfer-Encoding", "chunked"), ("Content-Range", "bytes 0-1/2")]))
     return ctx.add("txt", [hdrs_spec(hs), hx(body)], hs=hs, body=body)
 
 
@@ -1566,8 +1689,9 @@ class C17(Prop):
                     ctx.add("resp", [dels([msg[:cut], msg[cut:]])], field="resp-cl2", text=first + b"," + second)
         for s in strings:
             body = b"x" * liberal(s, 10)
-            ctx.add("req", ["d", "d", "d", dels([b"POST / HTTP/1.1\r\nContent-Length: " + s + b"\r\n\r\n" + body])], field="req-cl", text=s)
-            ctx.add("resp", [dels([b"HTTP/1.1 200 OK\r\nContent-Length: " + s + b"\r\n\r\n" + body])], field="resp-cl", text=s)
+            meth = rng.choice([b"POST", b"POST", b"GET", b"HEAD", b"TRACE", b"PUT", b"DELETE", b"OPTIONS", b"CONNECT", b"PATCH", b"head"])
+            ctx.add("req", ["d", "d", "d", dels([meth + b" / HTTP/1.1\r\nContent-Length: " + s + b"\r\n\r\n" + body])], field="req-cl", text=s)
+            ctx.add("resp", [dels([rng.choice(G.STATUS_LINES) + b"\r\nContent-Length: " + s + b"\r\n\r\n" + body])], field="resp-cl", text=s)
             if len(s) <= 2 or rng.random() < 0.3:
                 # Content-Length decides the framing of a response even next to Transfer-Encoding: chunked, so it
                 # is parsed (and must be refused when malformed) there too
@@ -1766,6 +1890,28 @@ class C18(Prop):
                 if cur != ref:
                     yield [ids[0], cid], f"letter case changed the result: {ref[:120]} vs {cur[:120]}"
 
+
+_c18_gen = C18.gen
+
+
+def _c18_gen_more(self, ctx):
+    _c18_gen(self, ctx)
+    rng = ctx.rng
+    # coded bodies of 4 KiB .. 70 KiB (and small ones) under every spelling of the coding tokens and header name
+    for size in (100, 5000, 20000, 70000):
+        plain = bytes(rng.randrange(256) for _ in range(size))
+        for stack in (["gzip"], ["zlib", "gzip"], ["raw"]):
+            data = plain
+            for c in stack:
+                data = G.CODERS[c](rng, data)
+            g = ("case", "bigdec", size, tuple(stack))
+            for name in ("Content-Encoding", "content-encoding", "CONTENT-ENCODING"):
+                for style in (str.lower, str.upper, str.title):
+                    toks = ", ".join(style(G.TOKEN_OF[c]) for c in stack)
+                    ctx.add("dec", [hdrs_spec([(name, toks)]), hx(data)], group=g)
+
+
+C18.gen = _c18_gen_more
 
 PROPS = {c.id: c for c in (C01, C02, C03, C04, C05, C06, C07, C08, C09, C10, C11, C12, C13, C14, C15, C16, C17, C18)}
 
